@@ -72,6 +72,26 @@ def cycles(case):
     return out
 
 
+def handovers(case):
+    """[(seq, bar, cycle index)] of the flushes that really process a bar's second terminal frame (shutdown = 1): not the bar whose
+    frame failed, and not the bars flush receives after a failed frame in the same cycle (they go back untouched)"""
+    out, ci, failed = [], -1, False
+    for seq, k, a in events(case):
+        if k == "CT_RENDERBEGIN":
+            ci += 1
+            failed = False
+        elif k == "CT_FLUSHBAR" and ci >= 0:
+            err = len(a) >= 6 and a[5] == "1"
+            if failed:
+                continue
+            if err:
+                failed = True
+                continue
+            if int(a[1]) == 1:
+                out.append((seq, bar(a[0]), ci))
+    return out
+
+
 def any_clipped(case):
     return any(c["clipped"] for c in cycles(case))
 
@@ -182,16 +202,10 @@ def c17_monitor(case, frames):
     # release of a bar: the first error-free flush of its frame with shutdown = 1
     rel = {}     # bar -> (cycle index, seq of the flush event, priority it was popped with in that cycle)
     evs = events(case)
-    flush_seq = {}
-    ci = -1
-    for seq, k, a in evs:
-        if k == "CT_RENDERBEGIN":
-            ci += 1
-        elif k == "CT_FLUSHBAR" and ci >= 0 and int(a[1]) == 1 and (len(a) < 6 or a[5] == "0"):
-            b0 = bar(a[0])
-            if b0 not in rel:
-                pr = [p for (b, p) in cyc[ci]["pops"] if b == b0]
-                rel[b0] = (ci, seq, pr[-1] if pr else None)
+    for seq, b0, ci in handovers(case):
+        if b0 not in rel:
+            pr = [p for (b, p) in cyc[ci]["pops"] if b == b0]
+            rel[b0] = (ci, seq, pr[-1] if pr else None)
     refixed = set(bar(a[0]) for _, k, a in evs if k == "HM_REQ" and len(a) >= 2 and a[0].startswith("b") and a[1] == "3")
     for s, a in after.items():
         shown = [ci for ci, c in enumerate(cyc) if c["out"] is not None and s in [int(i[1]) for i in c["out"][1] if i[0] == "r"]]
@@ -489,13 +503,14 @@ def c03_monitor(case, frames):
     # succ_of: bars that hand over to a bar parked behind them (queued before the flush of their second terminal frame);
     # a bar queued after that is pushed at once and the predecessor stays as any finished bar does
     succ_of = {}
+    ho = dict((seq, b) for seq, b, ci in handovers(case))
     handed = set()
     for seq, k, a in evs:
         if k == "CT_ADD" and a[1] != "after=-1":
             if int(a[1][6:]) not in handed:
                 succ_of[int(a[1][6:])] = bar(a[0])
-        elif k == "CT_FLUSHBAR" and int(a[1]) == 1 and (len(a) < 6 or a[5] == "0"):
-            handed.add(bar(a[0]))
+        elif k == "CT_FLUSHBAR" and seq in ho:
+            handed.add(ho[seq])
     for c in cyc:
         for (b, sh, n, rm, np) in c["flushed"]:
             if sh == 1 and (rm or b in succ_of) and not (case["cfg"][5] == "1" and not np and b not in succ_of):
